@@ -447,12 +447,14 @@ class DummyDev(ICommInterface):
 
         # get all pending data from queues
         try:
-            _ = self._qwrite.get_nowait()
+            while True:
+                _ = self._qwrite.get_nowait()
         except queue.Empty:
             pass
 
         try:
-            _ = self._qread.get_nowait()
+            while True:
+                _ = self._qread.get_nowait()
         except queue.Empty:
             pass
 
